@@ -73,8 +73,22 @@ def budget_case(case) -> List[Tuple[str, str]]:
     try:
         b = case["budgets"]
         over = {"scheduler": {"enabled": True, "quantum_ms": case["quantum"], "budgets": dict(b, wall_ms=case["wall"])}}
+        E.reset_global_caches()
+        if case.get("warm"):
+            # the budgets must also bind when the process-global stage caches are warm: the same turn runs first
+            # without stage budgets (kill switch on, so the graph and its etag stay as they are), caches on
+            over["t1"] = {"cache": {"enabled": True, "max_entries": 64, "ttl_s": 3600}}
+            over["t2"] = {"cache": {"enabled": True, "max_entries": 64, "ttl_s": 3600}}
         s = Session(os.path.join(work, "s"), base_cfg=over)
         s.text = case["text"]
+        if case.get("warm"):
+            loose = {"scheduler": {"enabled": True, "quantum_ms": case["quantum"], "budgets": {"wall_ms": case["wall"]}},
+                     "t1": over["t1"], "t2": over["t2"]}
+            s.base_cfg = loose
+            w0 = s.run({"sched": True, "kill": True})
+            if w0["raised"]:
+                return [("BudgetsClamp", f"{case}: warm-up run_turn raised {w0['raised']}")]
+            s.base_cfg = over
         # scripted clock: constant, or a jump at the first boundary check
         inp = {"sched": True, "cfg_extra": over}
         o = s.run(inp)
@@ -149,6 +163,8 @@ def check(run) -> None:
         b = {kk: vv for kk, vv in (("t1_pops", pops), ("t1_iters", iters), ("t2_k", k), ("t3_ops", ops)) if vv is not None}
         for text in (["I like apple and banana"] if q else ["I like apple and banana", "cherry pie"]):
             bcases.append({"budgets": b, "quantum": 20, "wall": 200, "text": text, "workdir": run.workdir})
+            if pops is not None or iters is not None or k is not None:
+                bcases.append({"budgets": b, "quantum": 20, "wall": 200, "text": text, "workdir": run.workdir, "warm": True})
     for c, fails in zip(bcases, pmap(budget_case, bcases, chunk=2)):
         run.traces += 1
         run.case(("turn_budget", json.dumps({k: v for k, v in c.items() if k != "workdir"}, sort_keys=True)))
